@@ -160,6 +160,7 @@ func parityEven(fa *FA, c Cond, container string) (isParity, even bool) {
 func runC01(c *Ctx, w *World, r *Report) {
 	names := []string{"bitmap.IndexRank64", "bitmap.IndexRank128", "bitmap.Rank64", "bitmap.Rank128"}
 	fns, ok := requireFuncs(w, r, names...)
+	ReportMaskWord(w, r, names...)
 	ReportScale(w, r, names...)
 	ReportPair(w, r, names...)
 	ReportRound(w, r, names...)
